@@ -67,6 +67,13 @@
 // order reaches first surfaces (nested.go). The trace limit is a property of
 // the runtime however it was obtained (New, Copy, Copy of Copy; limits family).
 //
+// Errors raised by a built-in before or instead of running code (parse failures
+// of eval / Function / RegExp / JSON.parse, argument checks of natives), also
+// when the built-in is reached through call / apply / an array callback or an
+// indirect eval, list exactly the active calls: no frame for code that never
+// started. Each raise site is also driven over a receiver x argument lattice
+// with the ES5 step order as the model (lattice.go).
+//
 // Code created by the Function constructor has no file in otto and the tests
 // pin nothing for it: such frames must be present with the right name, their
 // location is not asserted. At most `limit` frames are listed
@@ -104,6 +111,7 @@ func init() {
 			{Name: "limits", Run: runLimits},
 			{Name: "wrap", Run: runWrap},
 			{Name: "nested", Run: runNested},
+			{Name: "lattice", Run: runLattice},
 			{Name: "files", Run: runFiles},
 			{Name: "syntax", Run: runSyntax},
 			{Name: "nonascii", Run: runNonASCII, Solo: true},
@@ -393,6 +401,22 @@ func runTrace(r *engine.Run, c tcase) {
 		r.Mismatch(engine.Mismatch{Key: key + "#stack", Input: input, Expected: fmt.Sprintf("e.stack lists between 1 and %d frames", c.limit),
 			Observed: fmt.Sprintf("%d frames", stackLines), Aux: ax})
 	}
+	// caught: e.stack read in a catch clause lists the same frames (all but the outermost,
+	// whose file is that of the wrapper)
+	if k.group == "indirect" && c.origin == originFresh && c.limit == 10 && !c.files {
+		if st, ok := stackTextInCatch(scripts, c.mode, c.limit); !ok {
+			r.Mismatch(engine.Mismatch{Key: key + "#stack", Input: input, Expected: "e.stack is a string", Observed: st, Aux: ax})
+		} else {
+			// the wrapper evaluates the program text: its file name is the empty one
+			want := renderObserved(frames[:len(frames)-1])
+			if f := modeFile(c.mode); f != "" {
+				want = strings.ReplaceAll(want, f+":", "<anonymous>:")
+			}
+			if _, sf, ok2 := parseTrace(st); !ok2 || len(sf) < len(frames)-1 || renderObserved(sf[:len(frames)-1]) != want {
+				r.Mismatch(engine.Mismatch{Key: key + "#stack", Input: input, Expected: "e.stack begins with " + want, Observed: renderObserved(sf), Aux: ax})
+			}
+		}
+	}
 	// trace
 	okTrace, expR := g.matches(0, c.limit, frames)
 	obsR := renderObserved(frames)
@@ -434,6 +458,19 @@ func runTrace(r *engine.Run, c tcase) {
 		r.Mismatch(engine.Mismatch{Key: key + "#trace/" + name, Input: input, Expected: expR, Observed: obsR,
 			Note: "observed equals the alternative model {" + a["explained_by"] + "}: " + alt, Aux: a})
 	}
+}
+
+// stackTextInCatch returns e.stack as read by a catch clause around the last script.
+func stackTextInCatch(scripts []script, mode, limit int) (string, bool) {
+	last := scripts[len(scripts)-1]
+	wrapped := append(append([]script{}, scripts[:len(scripts)-1]...),
+		script{last.name, "var __ev = eval, __st; try { __ev(" + ox.JSLit(last.src) + "); } catch (e) { __st = e.stack; } __st;"})
+	res := executeFrom(originFresh, wrapped, mode, limit)
+	if res.Panicked || res.Err != nil || !res.Value.IsString() {
+		return fmt.Sprintf("%v %v %v", res.PanicVal, res.Err, ox.Canon(res.Value)), false
+	}
+	s, _ := res.Value.ToString()
+	return s, true
 }
 
 // stackInCatch runs the scripts on a runtime of the given origin inside a catch
@@ -628,7 +665,7 @@ func runSingleArgs(r *engine.Run) {
 }
 
 func runStack2(r *engine.Run) {
-	ks := ids("call-undef", "read-dot-undef", "unresolvable", "new-number", "instanceof-number", "toFixed-21", "throw-new-TypeError", "call-literal", "eval-syntax")
+	ks := ids("call-undef", "read-dot-undef", "unresolvable", "new-number", "instanceof-number", "toFixed-21", "throw-new-TypeError", "call-literal", "eval-syntax", "eval-alias-syntax", "eval-call-syntax", "json-parse-map")
 	lays := stackLayouts(r.Thorough())
 	r.Bound("constructs", fmt.Sprint(len(ks)))
 	r.Bound("shape_pairs", fmt.Sprint(int(nShapes)*int(nShapes)))
